@@ -45,4 +45,17 @@ CHECKS = {
          'must be logged with the right tied set and resolved by tie order (Scotland: most recent differing stage, then lot), and no tie may be logged without '
          'one. Each profile is re-counted with another tie order; tie-free records must be identical in actions, raw snapshots, report, dump and json.',
     note='Exclusions whose candidates differ by less than twice the guarded tolerance are not evaluated (non-transitive comparison). Scottish shared-extreme sets: any member accepted.'),
+ 'C08': dict(level='exploration', ref='DESIGN.md 3/C08',
+    technique='runtime monitoring: hook invariant at the snapshots taken right after a Meek/Warren distribution (conservation on raw values, keep-factor ranges, end-of-iteration discipline); outside counter on the arithmetic div to measure iteration depth',
+    text='At every fresh snapshot (meek/warren: iterate and end; meek-prf: begin/end and elect/tie/defeat before any exclusion of the round) of every '
+         'generated Meek-family count: votes + residual == ballots on raw values, nothing negative, keep factor 1 / 0 / in (0,1] by status; every '
+         'omega exit has surplus <= omega (meek-prf < omega) or a logged stable state; exclusions only after an end of iteration. Includes equal-rank '
+         'ballots, more seats than supported candidates, fixed p3-12, guarded grids, tiny rational.',
+    note='Known finding C08/meek-guarded-kf-underflow (elected keep factor truncates to exactly 0 under guarded arithmetic with guard digits; classifier requires raw kf == 0, guarded, guard>0, parametric meek/warren).'),
+ 'C18': dict(level='exploration', ref='DESIGN.md 3/C18',
+    technique='runtime monitoring: offline checker of the recorded history against live snapshots and announcement rules, plus tolerant parsers cross-checking report, dump and JSON against the record',
+    text='For every generated count: record actions == observed hook events (raw values), begins with the start of the count and ends with end, each elect/defeat names a '
+         'candidate whose status (or pending flag) changes there and every status change is so announced, end == E.elected/E.defeated; dump rows/columns and every field, '
+         'json.loads(json()) == stringified record (millions of leaves per run), report blocks (status lines and totals recomputed from raw tallies) all agree.',
+    note='Single-value printing is C14\'s; names are unique and free of ", " / ": "; QPQ restart applied virtually. Report parsed tolerantly by labels, not byte-compared.'),
 }
